@@ -5,7 +5,8 @@ MCRows == {1, 2, 3, 5, 19, 20, 22}
 MCCols == {1, 2, 4, 5}
 \* reduced product for the quick tier / the rule-by-rule machine
 QRows == {1, 2, 5, 6, 20, 22}
-QCols == {1, 2, 5}
+QCols == {1, 2, 4, 5}
+SCols == {1, 2, 5}      \* the rule-by-rule machine: one value per side of every column threshold
 QRoles == {"none", "presentation", "grid", "landmark"}
 QDescRoles == {"none", "tableRole"}
 QHeaders == {"none", "caption", "col", "th", "rowth"}
